@@ -305,7 +305,11 @@ def layer_python(ctx, n):
             want_s = 'VALUE ' + exprs.to_text(want)
         except Exception as ex:
             want_s = 'RAISED ' + type(ex).__name__
-        src = "<p tal:content=\"structure %s\">x</p>" % exprs.encode_expr_for_markup(rng, e, '"').replace('\n', ' ')
+        pre = ''
+        if rng.random() < .3:
+            # expression-local names (lambda parameters) equal to variables the next expression reads
+            pre = ' tal:define="zz9 (lambda v, n=1, lst=(): (v, n, lst))(0); zz8 sorted([2, 1], key=lambda s: s)"'
+        src = "<p%s tal:content=\"structure %s\">x</p>" % (pre, exprs.encode_expr_for_markup(rng, e, '"').replace('\n', ' '))
         try:
             out = PageTemplate(src)(**ns)
             got_s = 'VALUE ' + out[3:-4]
